@@ -39,7 +39,8 @@ TRUSTED = ['np.linalg.pinv returns (BᵀB)⁻¹Bᵀ for a full-column-rank B (co
 UNPROVEN = ['zernike_fit returns the normal-equation (least-squares) solution: rests on the pinv contract — correspondence only',
             'zernike_basis / zernike_compose evaluate the C11 mode model at the requested Noll indices and coordinates: the argument bindings and the '
             'position -> Noll index map are regenerated from the source (Gen/ZernikeCalls), the values are compared on every call — no theorem about the Python code itself']
-ASSUMPTIONS = ['modes linearly independent on the mask (IsUnit det(BᵀB)); numerically: cond(B) <= 1e4, else the history is tagged unjudged',
+ASSUMPTIONS = ['modes linearly independent on the mask (IsUnit det(BᵀB)); numerically: the property is judged on the real functions for cond(B) <= 1e9 with '
+               'tolerance 1e-12 x cond x scale (what a backward-stable least-squares solver delivers); the Lean model (Cramer at Float) is compared for k <= 6, cond <= 1e4',
                'zernike_remove always uses the library-default normalisation (normalize=True; it has no normalize parameter)',
                'requested modes are pairwise distinct']
 
@@ -77,8 +78,43 @@ def _cond(mask, modes, coords):
     if coords: kw['rho'], kw['theta'] = Z.zernike_coordinates(mask, shift=tuple(coords['shift']), rotate=coords['rotate'])
     return max(float(np.linalg.cond(lentil.zernike_basis(mask, modes, vectorize=True, normalize=n, **kw).T)) for n in (True, False))
 
+def _ill_case(rng, N, r, nm, few=False):
+    """ill-conditioned but full-rank: many modes over a small off-centre segment of a large pupil, with the caller supplying the
+    GLOBAL pupil coordinates (cond 1e5..1e8). Oracle-only (the Cramer model is for k <= 6, cond <= 1e4)."""
+    vlib.import_lentil()
+    import lentil, sys
+    Z = sys.modules['lentil.zernike']
+    R = N // 2 - 1
+    sh = (int(rng.integers(N // 5, N // 3)) * (1 if rng.integers(0, 2) else -1), int(rng.integers(N // 6, N // 4)))
+    seg = np.asarray(lentil.circle((N, N), r, shift=sh, antialias=False), dtype=float)
+    G = {'pupil_radius': R}
+    modes = [int(x) for x in rng.permutation(np.arange(1, nm + 1))]
+    rho, theta = Z.zernike_coordinates(lentil.circle((N, N), R, antialias=False))
+    cond = max(float(np.linalg.cond(lentil.zernike_basis(seg, modes, vectorize=True, normalize=n_, rho=rho, theta=theta).T)) for n_ in (True, False))
+    L = {'opd': 'C', 'mask': 'C', 'coords': 'C'}
+    def opd(): return [int(x) / 16 for x in rng.integers(-64, 65, seg.size)]
+    def coeffs(): return [int(x) / 8 for x in rng.integers(-40, 41, nm)]
+    steps = [{'t': 'rt', 'modes': modes, 'normalize': True, 'coords': G, 'coeffs': coeffs(), 'layout': dict(L)},
+             {'t': 'span', 'modes': modes, 'coords': G, 'coeffs': coeffs(), 'layout': dict(L, opd='F')}]
+    if not few:
+        # only consistent (zero-residual) problems: for data with a residual the least-squares solution itself is sensitive to cond^2
+        steps += [{'t': 'rt', 'modes': modes[::-1], 'normalize': False, 'coords': G, 'coeffs': coeffs(), 'layout': dict(L, opd='T')},
+                  {'t': 'span', 'modes': modes[::-1], 'coords': G, 'coeffs': coeffs(), 'layout': dict(L)}]
+    for s_ in steps: s_['modes_form'] = 'list'; s_['mask_outside'] = False
+    return {'kind': 'illcond', 'shape': [N, N], 'mask': [float(x) for x in seg.ravel()], 'mask_dtype': 'float64', 'steps': steps, 'cond': cond,
+            'oracle_only': True}
+
 def generate(rng, tier):
-    n = {'quick': 45, 'thorough': 700, 'search': 150}[tier]
+    out = _generate(rng, tier)
+    # extremes: ill-conditioned full-rank mode sets (a small sample in the quick tier, the large ones only in the deeper tiers)
+    ill = {'quick': [(48, 6, 22), (40, 5, 18)], 'thorough': [(48, 6, 22), (64, 8, 22), (96, 10, 22), (40, 5, 16), (56, 6, 21)],
+           'search': [(48, 6, 22), (64, 8, 22), (96, 10, 22), (40, 5, 18)]}[tier]
+    out = [_ill_case(rng, *a) for a in ill] + out
+    if tier in ('search', 'thorough'): out.append(_ill_case(rng, 256, 20, 22, few=True))
+    return out
+
+def _generate(rng, tier):
+    n = {'quick': 30, 'thorough': 700, 'search': 100}[tier]
     kinds = ['circle', 'hexagon', 'segmented', 'offcentre', 'irregular']
     out = []
     for k in range(n):
@@ -122,7 +158,9 @@ def signature(c):
     return f"{c['kind']} {c['shape']} {vlib.jhash([c['mask'], [(s['t'], s['modes'], s.get('normalize'), s['coords'], s['layout']) for s in c['steps']]])}"
 def nontrivial(c): return len(c['steps']) > 1
 def tags(c):
-    t = [c['kind'], 'judged' if c['cond'] <= 1e4 else 'unjudged(ill-conditioned)', 'mask:' + c['mask_dtype']]
+    t = [c['kind'], 'model-compared' if _judged(c) and not c.get('oracle_only') else 'oracle-only', 'mask:' + c['mask_dtype'],
+         'cond<=1e4' if c['cond'] <= 1e4 else 'cond<=1e9' if c['cond'] <= 1e9 else 'unjudged(cond>1e9)']
+    if max(c['shape']) > 64: t.append('large-array')
     for s in c['steps']:
         t += ['step:' + s['t'], 'opd-layout:' + s['layout']['opd'], 'modes:' + s['modes_form'],
               'coords:supplied' if s['coords'] else 'coords:default']
@@ -163,14 +201,17 @@ def impl(c):
         for s in c['steps']:
             L = s['layout']
             mask = _layout(mask_t, L['mask'])
-            if s['coords']:
+            if s['coords'] and 'pupil_radius' in s['coords']:
+                rho, theta = Z.zernike_coordinates(lentil.circle(sh, s['coords']['pupil_radius'], antialias=False))     # global pupil coordinates
+                kw = {'rho': _layout(rho, L['coords']), 'theta': _layout(theta, L['coords'])}
+            elif s['coords']:
                 rho, theta = Z.zernike_coordinates(mask64, shift=tuple(s['coords']['shift']), rotate=s['coords']['rotate'])
                 kw = {'rho': _layout(rho, L['coords']), 'theta': _layout(theta, L['coords'])}
             else:
                 rho, theta = Z.zernike_coordinates(mask64)
                 kw = {}
             modes = _modes(s); ml = s['modes']
-            o = {'rho': _fl(rho), 'theta': _fl(theta)}
+            o = {} if c.get('oracle_only') else {'rho': _fl(rho), 'theta': _fl(theta)}
             if s['t'] in ('fit', 'rm'):
                 opd = np.array(s['opd']).reshape(sh)
                 if not s['mask_outside']: opd = opd * (mask64 != 0)
@@ -201,7 +242,7 @@ def impl(c):
         return {'exc': type(e).__name__, 'msg': str(e)[:300], 'at_step': len(outs)}
 
 def requests(c, io):
-    if 'exc' in io: return []
+    if 'exc' in io or c.get('oracle_only'): return []
     mk = [int(x != 0) for x in c['mask']]
     reqs = []
     for s, o in zip(c['steps'], io['steps']):
@@ -226,7 +267,7 @@ def _where(c, i, s):
             f"coords {'supplied' if s['coords'] else 'default'}, layouts {s['layout']}, mask dtype {c['mask_dtype']})")
 
 def compare(c, io, mo):
-    if 'exc' in io: return None          # judged by the oracle
+    if 'exc' in io or c.get('oracle_only'): return None          # judged by the oracle
     for m in mo:
         if not m.get('ok'): return f"model refused: {m.get('err')}"
     k = 0
@@ -262,8 +303,11 @@ def compare(c, io, mo):
 # ------------------------------------------------------------------------------------------ oracle (real code only)
 def oracle(c, io):
     if 'exc' in io: return f"call {io.get('at_step', 0) + 1} raised {io['exc']}: {io.get('msg')}"
-    if not _judged(c): return None       # modes not (numerically) independent on this mask: outside the property's hypothesis
-    tol = TOL * max(c['cond'], 1.0) * 100
+    if c['cond'] > 1e9: return None      # modes not (numerically) independent on this mask: outside the property's hypothesis
+    # a backward-stable least-squares solution is accurate to ~cond x machine epsilon (measured for pinv: ~1e-16 x cond); a solver that
+    # squares the conditioning (normal equations) is off by ~cond^2 x epsilon and must not pass
+    tol = 1e-12 * max(c['cond'], 10.0)                 # consistent problems (compose -> fit, span -> remove)
+    tol_r = 1e-12 * max(c['cond'], 10.0) ** 2           # arbitrary data: the least-squares problem itself is sensitive to cond^2 x residual
     first = {}
     for i, (s, o) in enumerate(zip(c['steps'], io['steps'])):
         w = _where(c, i, s)
@@ -276,17 +320,17 @@ def oracle(c, io):
             if np.abs(o['rem']).max() > tol * sc: return f"{w}: removing the modes from an OPD made only of them leaves {np.abs(o['rem']).max():.3e}"
         elif s['t'] == 'rm':
             sc = max(1.0, np.abs(o['opd_in']).max())
-            if np.abs(o['fit_rem']).max() > tol * sc: return f"{w}: fit(remove(opd)) = {o['fit_rem']} is not zero"
-            if o['rem2_diff'] > tol * sc: return f"{w}: remove is not idempotent (max change {o['rem2_diff']:.3e})"
+            if np.abs(o['fit_rem']).max() > tol_r * sc: return f"{w}: fit(remove(opd)) = {o['fit_rem']} is not zero"
+            if o['rem2_diff'] > tol_r * sc: return f"{w}: remove is not idempotent (max change {o['rem2_diff']:.3e})"
         else:
             sc = max(1.0, np.abs(o['opd_in']).max())
             for a, b in zip(o['fit'], o['fit_rev']):
-                if abs(a - b) > tol * sc: return f"{w}: fit depends on the order of the requested modes: {o['fit']} vs {o['fit_rev']} (reversed request)"
+                if abs(a - b) > tol_r * sc: return f"{w}: fit depends on the order of the requested modes: {o['fit']} vs {o['fit_rev']} (reversed request)"
             # the same call (same values of every argument) must give the same answer whenever and however it is made
             key = vlib.jhash([s['modes'], s['normalize'], s['coords'], o['opd_in']])
             if key in first:
                 j, prev = first[key]
-                if np.abs(np.array(prev) - np.array(o['fit'])).max() > tol * sc:
+                if np.abs(np.array(prev) - np.array(o['fit'])).max() > tol_r * sc:
                     return f'{w}: same arguments as call {j + 1} but the fit changed from {prev} to {o["fit"]} (history or memory-layout dependence)'
             else: first[key] = (i, o['fit'])
     return None
